@@ -67,9 +67,9 @@ TEXT["C09"] = ("Refinement theorem for the whole multi-vector interface (WorldPr
                "produces on a map from names to plain sequences; moved-from vectors are empty; nothing live is clobbered. Per-operation "
                "theorems: copy construction/assignment give the target the source's size, fixed sizes, capacity and values and leave the "
                "source and all other vectors unchanged; move construction/assignment (stealing and element-wise branch); swap; "
-               "self-assignment/self-swap; independence of in-place operations; copies are in canonical layout. The element-wise "
-               "move-assignment branch is covered for trivially move-constructible types in the history theorem (all types in the "
-               "per-operation theorem). Correspondence: assignment/swap/copy/move matrix over states (empty, zero-capacity, partly "
+               "self-assignment/self-swap; independence of in-place operations; copies are in canonical layout. All value types: after an "
+               "element-wise move assignment the source keeps elements of the same field sizes holding moved-from values. A moved-from "
+               "vector is an empty vector without capacity and may be the source of every operation. Correspondence: assignment/swap/copy/move matrix over states (empty, zero-capacity, partly "
                "filled, full, moved-from), different fixed sizes and allocator relationships, both operands observed afterwards.")
 TEXT["C10"] = ("Theorems: reserve within capacity is the identity on the whole state; capacity afterwards is max(capacity, n); size, fixed "
                "sizes and every element are unchanged at every fill level (both locators), also under repeated reserves; after a reserve beyond "
